@@ -132,6 +132,14 @@ def run_job(job):
                     multi.append(base0[:k] + bytes(x ^ 0xff for x in base0[k:]))
                     multi.append(bytes(x ^ 0xff for x in base0[:k]) + base0[k:])
                 multi.append(base0[::-1])
+                # tags anybody can compute from public data: the state's transcript hash (bytes [Nh, 2Nh)) used as key and/or message
+                import hashlib, hmac as _hmac
+                hname = {32: "sha256", 48: "sha384", 64: "sha512"}[nh]
+                stb = bytes.fromhex(s.ser(sh).data)
+                ht_ = stb[nh:2 * nh]
+                for k_, m_ in ((ht_, ht_), (bytes(nh), ht_), (ht_, b""), (ht_, stb[2 * nh:]), (stb[2 * nh:], ht_)):
+                    multi.append(_hmac.new(k_, m_, hname).digest())
+                multi.append(hashlib.new(hname, ht_).digest())
                 multi.append(bytes(x ^ 0xff for x in base0))
                 multi.append(bytes(x ^ 0xaa if i % 2 else x for i, x in enumerate(base0)))
                 multi = [x for x in dict.fromkeys(multi) if x != genuine]
